@@ -25,6 +25,7 @@ def run(chk):
     chk.rule('C10-R3', 'prefix sums: gstart[0,:]=0, gstart[1:,c]=Nout[:,c,0].cumsum(); cursors = gstart[tid]; sizes = gstart[-1,c]', 6)
     chk.rule('C10-R4', 'count/fill agreement: each branch sets keep=c and increments counter c-1 once; fill branch c advances cursor c once', 12)
     chk.rule('C10-R5', 'purity: no randomness/time/global state reachable; row values do not mention the thread id', 2)
+    chk.rule('C10-R7', 'host iterations are independent: no scalar is carried from one host to the next inside a thread block (except the fill cursors)', 4)
     chk.rule('C10-R6', 'fast_concatenate: serial and parallel paths share one index map; block tables tile both inputs; every tid dispatched once', 8)
     chk.assume('floor(T*N1/(N1+N2)) <= T-1 for N2 > 0 (real arithmetic): at least one thread serves the second array')
     chk.assume('bitwise float equality follows from purity (no cross-row arithmetic under fastmath) and is not separately decided')
@@ -96,6 +97,18 @@ def run(chk):
         chk.check(not ex, 'C10-R4', GH, name, 'no host is skipped: no continue/break/return inside the count or fill loops', '',
                   f'{type(ex[0]).__name__.lower() if ex else ""} at line {ex[0].lineno if ex else 0}: a host can leave the iteration before its keep code / counter / row is written',
                   node=ex[0] if ex else P.count, nontrivial=False)
+        # R7: a host's rows are a function of that host alone: no scalar survives from one host iteration to the next (a value cached for
+        # "the same host as before" is refreshed relative to the start of the TABLE, not of the thread's block, so what a host gets depends on
+        # where the block edges fall, i.e. on Nthread); the cursors of the fill pass are the only carried names
+        from ..core.carried import carried_names
+        for lp_, what_, allowed_ in ((P.ci, 'count', set()), (P.fi, 'fill', set(P.cursors))):
+            car_, aug_ = carried_names(lp_)
+            extra_aug = [a_ for a_ in aug_ if a_ not in allowed_]
+            chk.check(not car_ and not extra_aug, 'C10-R7', GH, name, f'{what_} pass: every scalar an iteration reads was assigned by that iteration (carried: cursors only)',
+                      f'carried on purpose: {aug_}',
+                      '; '.join(f'{nm_} (line {nd_.lineno}) can be read before this iteration assigns it' for nm_, nd_ in car_[:3]) + (f'; accumulators {extra_aug}' if extra_aug else '') +
+                      ': the value comes from the previous host of the SAME THREAD BLOCK (or from the block\'s start value), so the first hosts/particles of a block are treated '
+                      'differently from the same rows in the middle of a block -- the catalogue changes with Nthread', node=car_[0][1] if car_ else lp_)
         chk.check(len(P.fbranches) == 3 and not P.fill_else and not P.fill_other, 'C10-R4', GH, name, 'fill pass has exactly one branch per keep code', '',
                   f'{len(P.fbranches)} fill branches, else={bool(P.fill_else)}, other statements={len(P.fill_other)}', node=P.fill, nontrivial=False)
         # R5
